@@ -35,14 +35,33 @@ theorem C19_unsendable_harmless (s s' : CS) (sid : Nat) (h : step s (.sendBad si
     s' = { s with prev := some (.sendBad sid) } :=
   step_sendBad h
 
-/-- **A failing write leads to DISCONNECTED**: it records a fault, which enables the DISCONNECTED report while CONNECTED, and releases the send lock -/
-theorem C19_write_failure (s s' : CS) (c sid : Nat) (h : step s (.writeFail c sid) = some s') (hst : s.st = .connected) :
+/-- **A failing write on the current link leads to DISCONNECTED**: it records a fault, which enables the DISCONNECTED report while CONNECTED, and releases the send lock -/
+theorem C19_write_failure (s s' : CS) (c sid : Nat) (h : step s (.writeFail c sid) = some s') (hst : s.st = .connected)
+    (hc : s.conn = some c) :
     s'.faults > 0 ∧ s'.lockHolder = none ∧ (step s' (.status .disconnected)).isSome = true :=
-  step_writeFail h hst
+  step_writeFail h hst hc
+
+/-- … whereas a failure on a link that has been replaced in the meantime is not a fault of the current link -/
+theorem C19_stale_link_failure (s s' : CS) (c sid : Nat) (h : step s (.writeFail c sid) = some s') (hc : s.conn ≠ some c) :
+    s'.faults = s.faults ∧ s'.st = s.st ∧ s'.conn = s.conn ∧ s'.lockHolder = none :=
+  step_writeFail_stale h hc
+
+/-- **One message, one link**: in every accepted trace all packets of a message are written to the same link — the one that was
+current at its first packet — also when the client reconnects while the sender is suspended between two packets -/
+theorem C19_one_link (evs : List Ev) (s : CS) (h : runTrace init evs = some s) :
+    ∀ e1 ∈ s.wire, ∀ e2 ∈ s.wire, e1.2.1 = e2.2.1 → e1.1 = e2.1 :=
+  (reach_inv h).oneLink
 
 -- non-vacuity: two concurrent 2-packet sends whose drains suspend
 example : (runTrace init [.connCall, .implStart, .implOk 1, .status .connected, .connReturn, .sendCall 1, .write 1 1 0, .sendCall 2,
     .write 1 1 1, .sendReturn 1, .write 1 2 0, .write 1 2 1, .sendReturn 2]).map (fun s => sids s.wire) = some [1, 1, 2, 2] := by decide +kernel
+-- a sender suspended after packet 0 while the client reconnects finishes on the OLD link; writing packet 1 to the new link is not a behaviour of the model
+example : (runTrace init [.connCall, .implStart, .implOk 1, .status .connected, .connReturn, .recvStart 1, .sendCall 1, .write 1 1 0,
+    .envEof 1, .status .disconnected, .recvExit 1 false, .connCall, .implStart, .implOk 2, .status .connected, .connReturn, .recvStart 2,
+    .write 1 1 1, .sendReturn 1]).map (fun s => s.wire) = some [(1, 1, 0), (1, 1, 1)] := by decide +kernel
+example : runTrace init [.connCall, .implStart, .implOk 1, .status .connected, .connReturn, .recvStart 1, .sendCall 1, .write 1 1 0,
+    .envEof 1, .status .disconnected, .recvExit 1 false, .connCall, .implStart, .implOk 2, .status .connected, .connReturn, .recvStart 2,
+    .write 2 1 1] = none := by decide +kernel
 -- and the interleaved order is not a behaviour of the model
 example : runTrace init [.connCall, .implStart, .implOk 1, .status .connected, .connReturn, .sendCall 1, .write 1 1 0, .sendCall 2,
     .write 1 2 0] = none := by decide +kernel
